@@ -1354,7 +1354,7 @@ def search(ctx, reasons):
             s = make_shift(c['n'], c['shift'], c['seed'])
             for dt in (np.float64, np.float32):
                 add(guarded(oracle_1d, x, [s, 1, 0.5], dt), 'harness/props/c07.py oracle_1d(x, shifts, dtype) on the disagreeing case')
-        elif c.get('op') == 'fshift2':
+        elif c.get('op') == 'fshift2' and c.get('n', 2) >= 2:      # an axis shorter than 2 samples is outside the property
             for dt in (np.float64, np.float32):
                 add(guarded(oracle_2d, c['nrow'], c['ncol'], c['axis'], c['seed'], dt), 'harness/props/c07.py oracle_2d on the disagreeing case')
             if c.get('mode') in ('pertrace', 'pertrace_int', 'adc', 'repeat', 'allequal') and c['n'] >= 2 and c['nrow'] * c['ncol'] <= 600:
